@@ -20,11 +20,14 @@ VERIF = os.path.dirname(os.path.dirname(os.path.abspath(__file__)))
 HARNESS = os.path.join(VERIF, "harness", "h_pybody.py")
 TOOL_TIMEOUT = 30
 CLASSES = ("body-compile:keyword-attribute-in-expression", "body-compile:keyword-rule-label", "body-compile:string-literal-quote-or-backslash",
-           "body-compile:binary-literal", "body-value:xor-right-nested", "body-value:integer-division", "body-value:real-literal-digits", "body-value:builtin-constant")
+           "body-compile:binary-literal", "body-value:xor-right-nested", "body-value:integer-division", "body-value:real-literal-digits", "body-value:builtin-constant", "body-value:typeof-names")
 
 
 def show(v):
     return ("true" if v else "false") if isinstance(v, bool) else str(v)
+
+
+TYPEOF_TRUE = ("FX_TYPEOF.E", "FX_TYPEOF.MID", "FX_TYPEOF.ROOT")     # ISO 10303-11 15.25 on an instance of fx_typeof.e
 
 
 def env_row(body, env):
@@ -100,6 +103,8 @@ def expected_value(kind, tree, env, spec_val):
         return "STR:" + tree[1]
     if k == "real":
         return "REAL:" + repr(float(tree[1]))
+    if k == "typeof":
+        return "true" if tree[1] in TYPEOF_TRUE else "false"
     if k == "const":
         import math
         return {"PI": "REAL:" + repr(math.pi), "CONST_E": "REAL:" + repr(math.e), "UNKNOWN": "unknown", "?": "none"}[tree[1]]
@@ -215,6 +220,8 @@ def classify(o, body):
             return CLASSES[6]
         if any(x[0] == "const" for x in walk(t)):
             return CLASSES[7]
+        if any(x[0] == "typeof" for x in walk(t)):
+            return CLASSES[8]
     return kind + ":" + body.express()
 
 
@@ -365,7 +372,8 @@ def run_bodies(ctx, b, exe, only=None, only_envs=None):
 
 
 def to_obj(b):
-    return {"name": b.name, "ent": b.ent, "ints": b.ints, "bools": b.bools, "derived": b.derived, "rules": b.rules, "broad": b.broad}
+    return {"name": b.name, "ent": b.ent, "ints": b.ints, "bools": b.bools, "derived": b.derived, "rules": b.rules, "broad": b.broad,
+            "supers": list(b.supers)}
 
 
 def _tup(t):
@@ -373,8 +381,10 @@ def _tup(t):
 
 
 def from_obj(o):
-    return X.Body(o["name"], o["ent"], list(o["ints"]), list(o["bools"]), [(n, ty, _tup(t)) for n, ty, t in o["derived"]],
-                  [(lab, _tup(t)) for lab, t in o["rules"]], o.get("broad", False))
+    b = X.Body(o["name"], o["ent"], list(o["ints"]), list(o["bools"]), [(n, ty, _tup(t)) for n, ty, t in o["derived"]],
+               [(lab, _tup(t)) for lab, t in o["rules"]], o.get("broad", False))
+    b.supers = [tuple(x) for x in o.get("supers", [])]
+    return b
 
 
 # ---------------------------------------------------------------------------------------------------------------------
